@@ -316,6 +316,8 @@ struct Faulty {
     fail_insert: bool,
     fail_remove: bool,
     fail_root: bool,
+    /// root reads succeed this many times, then are rejected (None = never rejected this way)
+    root_reads_left: std::cell::Cell<Option<usize>>,
 }
 impl vrl::compiler::SecretTarget for Faulty {
     fn get_secret(&self, key: &str) -> Option<&str> { self.inner.get_secret(key) }
@@ -328,7 +330,14 @@ impl vrl::compiler::Target for Faulty {
         self.inner.target_insert(path, value)
     }
     fn target_get(&self, path: &vrl::path::OwnedTargetPath) -> Result<Option<&Value>, String> {
-        if path.path.is_root() { if self.fail_root { return Err("rejected".into()); } return self.inner.target_get(path); }
+        if path.path.is_root() {
+            if self.fail_root { return Err("rejected".into()); }
+            if let Some(n) = self.root_reads_left.get() {
+                if n == 0 { return Err("rejected".into()); }
+                self.root_reads_left.set(Some(n - 1));
+            }
+            return self.inner.target_get(path);
+        }
         if self.fail_get { return Err("rejected".into()); }
         self.inner.target_get(path)
     }
@@ -365,7 +374,7 @@ fn target_faults() -> usize {
         let Ok(res) = compile(src, &fns) else { bad += 1; fail("target_faults", src, "compiles", "compile error"); continue };
         let before = ev(r#"{"foo": 1}"#);
         let mut t = Faulty { inner: TargetValue { value: before.clone(), metadata: Value::Object(BTreeMap::new()), secrets: Secrets::default() },
-                             fail_get: fg, fail_insert: fi, fail_remove: fr, fail_root: froot };
+                             fail_get: fg, fail_insert: fi, fail_remove: fr, fail_root: froot, root_reads_left: std::cell::Cell::new(None) };
         let mut rt = Runtime::default();
         let got = std::panic::catch_unwind(std::panic::AssertUnwindSafe(|| rt.resolve(&mut t, &res.program, &TimeZone::default())));
         let case = format!("program `{}` on {{\"foo\": 1}} with target rejecting get={} insert={} remove={} root={}", src, fg, fi, fr, froot);
@@ -383,6 +392,20 @@ fn target_faults() -> usize {
         if unchanged && t.inner.value != before {
             bad += 1;
             fail("target_faults", &case, "event unchanged", &t.inner.value.to_string());
+        }
+    }
+    // the root is readable when the run starts but rejected later (unnest re-reads the root)
+    for src in ["unnest!(.foo)", "x = unnest(.foo) ?? []\nx"] {
+        let fns = vrl::stdlib::all();
+        let Ok(res) = compile(src, &fns) else { bad += 1; fail("target_faults", src, "compiles", "compile error"); continue };
+        let before = ev(r#"{"foo": [1, 2]}"#);
+        let mut t = Faulty { inner: TargetValue { value: before.clone(), metadata: Value::Object(BTreeMap::new()), secrets: Secrets::default() },
+                             fail_get: false, fail_insert: false, fail_remove: false, fail_root: false, root_reads_left: std::cell::Cell::new(Some(1)) };
+        let mut rt = Runtime::default();
+        let got = std::panic::catch_unwind(std::panic::AssertUnwindSafe(|| rt.resolve(&mut t, &res.program, &TimeZone::default())));
+        if got.is_err() {
+            bad += 1;
+            fail("target_faults", &format!("program `{}` on {{\"foo\": [1, 2]}} with a target whose root read is rejected after the first read", src), "no panic (an error or a value)", "PANIC");
         }
     }
     bad
